@@ -9,6 +9,7 @@ Import ListNotations.
 Lemma hm_parse_edge_S f ty s m prefix :
   parse_edge (S f) ty s m prefix =
     bind (deserialize_hml s m) (fun '(l, suffix, s1) =>
+    if (m <? Z.of_nat l)%Z then Err EValue else
     let prefix' := prefix ++ suffix in
     let m' := (m - Z.of_nat l)%Z in
     if negb (ty =? ty_ordinary)%Z then Ok []
@@ -22,6 +23,50 @@ Lemma hm_parse_edge_S f ty s m prefix :
       let 'Cell ty1 bits1 refs1 := c1 in
       bind (parse_edge f ty1 (mkS bits1 refs1) (m' - 1) (prefix' ++ [true])) (fun rs =>
       Ok (ls ++ rs)))))).
+Proof. reflexivity. Qed.
+
+(* the same step once the label is known to fit into the remaining key: the length test disappears *)
+Lemma hm_parse_edge_S_fit f ty s m prefix l suffix s1 :
+  deserialize_hml s m = Ok (l, suffix, s1) -> (Z.of_nat l <= m)%Z ->
+  parse_edge (S f) ty s m prefix =
+    (let prefix' := prefix ++ suffix in
+    let m' := (m - Z.of_nat l)%Z in
+    if negb (ty =? ty_ordinary)%Z then Ok []
+    else if (m' =? 0)%Z then
+      match prefix' with [] => Ok [] | _ => Ok [(prefix', s1)] end
+    else
+      bind (s_load_ref s1) (fun '(c0, s2) =>
+      let 'Cell ty0 bits0 refs0 := c0 in
+      bind (parse_edge f ty0 (mkS bits0 refs0) (m' - 1) (prefix' ++ [false])) (fun ls =>
+      bind (s_load_ref s2) (fun '(c1, _) =>
+      let 'Cell ty1 bits1 refs1 := c1 in
+      bind (parse_edge f ty1 (mkS bits1 refs1) (m' - 1) (prefix' ++ [true])) (fun rs =>
+      Ok (ls ++ rs)))))).
+Proof.
+  intros Hl Hfit. rewrite hm_parse_edge_S. rewrite Hl. cbn [bind].
+  replace (m <? Z.of_nat l)%Z with false by lia. reflexivity.
+Qed.
+
+(* one unfolding step of parse_aug_edge *)
+Lemma hm_parse_aug_edge_S f ylen ty s m prefix :
+  parse_aug_edge (S f) ylen ty s m prefix =
+    if negb (ty =? ty_ordinary)%Z then Ok ([], [])
+    else
+    bind (deserialize_hml s m) (fun '(l, suffix, s1) =>
+    if (m <? Z.of_nat l)%Z then Err EValue else
+    let prefix' := prefix ++ suffix in
+    let m' := (m - Z.of_nat l)%Z in
+    if (m' =? 0)%Z then
+      bind (s_load_bits s1 ylen) (fun '(y, s2) => Ok ([(prefix', s2)], [y]))
+    else
+      bind (s_load_ref s1) (fun '(c0, s2) =>
+      let 'Cell ty0 bits0 refs0 := c0 in
+      bind (parse_aug_edge f ylen ty0 (mkS bits0 refs0) (m' - 1) (prefix' ++ [false])) (fun '(ls, le) =>
+      bind (s_load_ref s2) (fun '(c1, s3) =>
+      let 'Cell ty1 bits1 refs1 := c1 in
+      bind (parse_aug_edge f ylen ty1 (mkS bits1 refs1) (m' - 1) (prefix' ++ [true])) (fun '(rs, re) =>
+      bind (s_load_bits s3 ylen) (fun '(y, _) =>
+      Ok (ls ++ rs, le ++ re ++ [y]))))))).
 Proof. reflexivity. Qed.
 
 (* a cell whose data starts with 0 0 carries an empty hml_short label *)
@@ -54,6 +99,7 @@ Proof.
     apply Nat.eqb_eq in Hlen.
     cbn [cell_of leaves_of]. rewrite hm_parse_edge_S.
     rewrite read_label_spec by (try lia; exact Hkind). cbn [bind].
+    replace (Z.of_nat m <? Z.of_nat (length l))%Z with false by lia.
     rewrite hm_ord_test.
     replace (Z.of_nat m - Z.of_nat (length l) =? 0)%Z with true by lia.
     destruct (prefix ++ l) as [|x p] eqn:E; [|reflexivity].
@@ -68,6 +114,7 @@ Proof.
     cbn [cell_of leaves_of]. rewrite hm_parse_edge_S.
     rewrite <- (app_nil_r (s_label_bits k l m)).
     rewrite read_label_spec by (try lia; exact Hkind). cbn [bind].
+    replace (Z.of_nat m <? Z.of_nat (length l))%Z with false by lia.
     rewrite hm_ord_test.
     replace (Z.of_nat m - Z.of_nat (length l) =? 0)%Z with false by lia.
     replace (Z.of_nat m - Z.of_nat (length l) - 1)%Z with (Z.of_nat (m - length l - 1)) by lia.
@@ -90,7 +137,9 @@ Proof.
     apply andb_true_iff in Hok. destruct Hok as [Hty H0].
     cbn [cell_of leaves_of]. rewrite hm_parse_edge_S.
     destruct (hm_hml_00 bits refs (Z.of_nat m) H0 H1) as [s1 Hs1].
-    rewrite Hs1. cbn [bind]. rewrite Hty. reflexivity.
+    rewrite Hs1. cbn [bind Z.of_nat].
+    replace (Z.of_nat m <? 0)%Z with false by lia.
+    rewrite Hty. reflexivity.
 Qed.
 
 Lemma hm_parse_fuel_big : (1023 < parse_fuel)%nat.
@@ -103,4 +152,18 @@ Proof.
   intros t n Hn Hok. unfold parse_hashmap.
   pose proof hm_parse_fuel_big as Hf.
   apply hm_parse_edge_valid; [lia|right; lia|exact Hok].
+Qed.
+
+(* ---- a label longer than the remaining key is refused (parse.py: `if l > key_length: raise ValueError`);
+   before the repair m went negative, the leaf test m = 0 never fired and the parser kept descending ---- *)
+Theorem label_too_long_rejected : forall s m l suffix s1,
+  deserialize_hml s m = Ok (l, suffix, s1) -> (m < Z.of_nat l)%Z ->
+  (forall fuel ty prefix, parse_edge (S fuel) ty s m prefix = Err EValue) /\
+  (forall fuel ylen prefix, parse_aug_edge (S fuel) ylen ty_ordinary s m prefix = Err EValue).
+Proof.
+  intros s m l suffix s1 Hl Hlong. split.
+  - intros fuel ty prefix. rewrite hm_parse_edge_S. rewrite Hl. cbn [bind].
+    replace (m <? Z.of_nat l)%Z with true by lia. reflexivity.
+  - intros fuel ylen prefix. rewrite hm_parse_aug_edge_S. rewrite hm_ord_test. rewrite Hl. cbn [bind].
+    replace (m <? Z.of_nat l)%Z with true by lia. reflexivity.
 Qed.
